@@ -1,6 +1,7 @@
-// C10: exception-safe variants of the in-memory legs (symbols prefixed c10_).  Each returns a malloc'ed C string
-// (free with shim_free); on an exception the string starts with "!!EXC " followed by what the engine wrote to its
-// error stream.
+// C10: exception-safe in-memory legs (symbols prefixed c10_).  Each returns a malloc'ed C string (free with shim_free);
+// when the engine throws, the string starts with "!!EXC".
+// The state of an engine is rendered by walking its eleven entity maps in the order DUMP -all uses and calling each
+// entity's dump_raw: unlike cxxStorageBin::dump_raw this also shows REACTION_PRESSURE.
 #include <cstring>
 #include <cstdlib>
 #include <cfloat>
@@ -10,6 +11,17 @@
 #include "IPhreeqc.hpp"
 #include "Phreeqc.h"
 #include "StorageBin.h"
+#include "Solution.h"
+#include "Exchange.h"
+#include "GasPhase.h"
+#include "cxxKinetics.h"
+#include "PPassemblage.h"
+#include "SSassemblage.h"
+#include "Surface.h"
+#include "cxxMix.h"
+#include "Reaction.h"
+#include "Temperature.h"
+#include "Pressure.h"
 
 namespace {
 class C10IPhreeqc : public IPhreeqc {
@@ -22,16 +34,32 @@ char *c10_dup(const std::string &s) {
 	return r;
 }
 std::string c10_dump(Phreeqc *c) {
-	cxxStorageBin sb(c->Get_phrq_io());
-	c->phreeqc2cxxStorageBin(sb);
 	std::ostringstream os;
 	os.precision(DBL_DIG - 1);
-	sb.dump_raw(os, 0);
+	Utilities::Rxn_dump_raw(c->Get_Rxn_solution_map(), os, 0);
+	Utilities::Rxn_dump_raw(c->Get_Rxn_pp_assemblage_map(), os, 0);
+	Utilities::Rxn_dump_raw(c->Get_Rxn_exchange_map(), os, 0);
+	Utilities::Rxn_dump_raw(c->Get_Rxn_surface_map(), os, 0);
+	Utilities::Rxn_dump_raw(c->Get_Rxn_ss_assemblage_map(), os, 0);
+	Utilities::Rxn_dump_raw(c->Get_Rxn_gas_phase_map(), os, 0);
+	Utilities::Rxn_dump_raw(c->Get_Rxn_kinetics_map(), os, 0);
+	Utilities::Rxn_dump_raw(c->Get_Rxn_mix_map(), os, 0);
+	Utilities::Rxn_dump_raw(c->Get_Rxn_reaction_map(), os, 0);
+	Utilities::Rxn_dump_raw(c->Get_Rxn_temperature_map(), os, 0);
+	Utilities::Rxn_dump_raw(c->Get_Rxn_pressure_map(), os, 0);
 	return os.str();
 }
 }
 
 extern "C" {
+
+// state of the instance itself
+char *c10_raw_dump(void *vp) {
+	C10IPhreeqc *p = (C10IPhreeqc *)vp;
+	std::string out;
+	try { out = c10_dump(p->P()); } catch (...) { out = "!!EXC"; }
+	return c10_dup(out);
+}
 
 // assignment (Phreeqc::operator= -> InternalCopy) into a default-constructed engine; dump of the copy
 char *c10_assign_dump(void *vp) {
@@ -63,6 +91,40 @@ char *c10_copy_dump(void *vp) {
 		c = new Phreeqc(*p->P());
 		out = c10_dump(c);
 		delete c;
+	} catch (...) {
+		out = "!!EXC";
+	}
+	return c10_dup(out);
+}
+
+// storage-bin transfer: everything of src is copied into a cxxStorageBin (phreeqc2cxxStorageBin) and from there into
+// dst (cxxStorageBin2phreeqc), an instance with the same database; returns dst's state
+char *c10_storagebin_into(void *vsrc, void *vdst) {
+	C10IPhreeqc *s = (C10IPhreeqc *)vsrc;
+	C10IPhreeqc *d = (C10IPhreeqc *)vdst;
+	std::string out;
+	try {
+		cxxStorageBin sb(s->P()->Get_phrq_io());
+		s->P()->phreeqc2cxxStorageBin(sb);
+		d->P()->cxxStorageBin2phreeqc(sb);
+		out = c10_dump(d->P());
+	} catch (...) {
+		out = "!!EXC";
+	}
+	return c10_dup(out);
+}
+
+// what cxxStorageBin::dump_raw prints for the bin filled by phreeqc2cxxStorageBin (the bin's own rendering)
+char *c10_storagebin_text(void *vp) {
+	C10IPhreeqc *p = (C10IPhreeqc *)vp;
+	std::string out;
+	try {
+		cxxStorageBin sb(p->P()->Get_phrq_io());
+		p->P()->phreeqc2cxxStorageBin(sb);
+		std::ostringstream os;
+		os.precision(DBL_DIG - 1);
+		sb.dump_raw(os, 0);
+		out = os.str();
 	} catch (...) {
 		out = "!!EXC";
 	}
